@@ -69,10 +69,11 @@ type c19db struct {
 	polID   map[string]string
 	ops     map[string]util.Hash
 	counter int
+	stcache int // size of the permanent database's state cache (0: none)
 }
 
 func (d *c19db) open() error {
-	perm, err := isaacdatabase.NewLeveldbPermanent(d.permst, d.env.encs, d.env.enc, 0)
+	perm, err := isaacdatabase.NewLeveldbPermanent(d.permst, d.env.encs, d.env.enc, d.stcache)
 	if err != nil {
 		return err
 	}
@@ -309,7 +310,7 @@ func runC19(c *Ctx) error {
 	keys := []string{"ka", "kb", "kc", "kd"}
 	for i := 0; i < n; i++ {
 		d := &c19db{env: env, st: leveldbstorage.NewMemStorage(), permst: leveldbstorage.NewMemStorage(),
-			mapIDs: map[string]string{}, proofID: map[string]string{}, valueID: map[string]string{}, polID: map[string]string{}, ops: map[string]util.Hash{}}
+			mapIDs: map[string]string{}, proofID: map[string]string{}, valueID: map[string]string{}, polID: map[string]string{}, ops: map[string]util.Hash{}, stcache: (i % 2) * 100}
 		if err := d.open(); err != nil {
 			return err
 		}
